@@ -14,11 +14,12 @@ EXTENDS Spinner, Json, TLC
 
 CONSTANTS Bodies,      \* set of with-bodies
           Modes,       \* kinds of output: "ansi", "plain", "quiet"
+          Seconds,     \* what follows the run on the same indicator object: <<>> (nothing) or <<[start, end, body]>>
           TickMs,      \* set of clock advances
           MaxTicks, MaxPre
 
-VARIABLES nticks, hist, npre, prev
-mvars == <<vars, nticks, hist, npre, prev>>
+VARIABLES nticks, hist, npre, prev, cfg0
+mvars == <<vars, nticks, hist, npre, prev, cfg0>>
 
 A == <<"A", "A">>
 B == <<"B">>
@@ -44,22 +45,35 @@ Ticks2 == {50, 100}
 AllModes == {"ansi", "plain", "quiet"}
 OnlyAnsi == {"ansi"}
 NotAnsi == {"plain", "quiet"}
-Cfg(b, md) == [mode |-> md, w |-> 30, interval |-> 100, start |-> A, end |-> E, body |-> b]
+\* a second run: begins with the message the first one ended with (E) or with another one, quick bodies
+BodiesTwice == {<<>>, <<Set(B)>>}
+AnsiPlain == {"ansi", "plain"}
+NoSecond == {<<>>}
+SecondsQ == {<<>>, <<[start |-> E, end |-> E, body |-> <<>>]>>, <<[start |-> A, end |-> E, body |-> <<Set(B)>>]>>,
+             <<[start |-> E, end |-> A, body |-> <<Raise>>]>>}
+SecondsH == {<<[start |-> E, end |-> E, body |-> <<>>]>>, <<[start |-> A, end |-> E, body |-> <<>>]>>}
+Cfg2(md, x) == [mode |-> md, w |-> 30, interval |-> 100, start |-> x.start, end |-> x.end, body |-> x.body,
+                next |-> <<>>, prev |-> <<A, B, C, E>>]
+Cfg(b, md, nx) == [mode |-> md, w |-> 30, interval |-> 100, start |-> A, end |-> E, body |-> b,
+                   next |-> IF nx = <<>> THEN <<>> ELSE <<Cfg2(md, nx[1])>>, prev |-> <<>>]
 
-MInit == /\ \E b \in Bodies, md \in Modes : InitWith(Cfg(b, md))
+MInit == /\ \E b \in Bodies, md \in Modes, nx \in Seconds : InitWith(Cfg(b, md, nx)) /\ cfg0 = Cfg(b, md, nx)
          /\ nticks = 0 /\ hist = <<>> /\ npre = 0 /\ prev = ""
 
 EnT == pcS = "sleep" /\ clock < sdead /\ (nticks < MaxTicks \/ stop)
 TickStep == EnT /\ \E d \in TickMs : Tick(d) /\ nticks' = nticks + 1
 
 \* ---- plain exploration
+RestartStep == Restart /\ nticks' = 0
 BNext == \/ MStep /\ UNCHANGED nticks
          \/ SStep /\ UNCHANGED nticks
          \/ TickStep
-BSpec == MInit /\ [][BNext /\ UNCHANGED <<hist, npre, prev>>]_mvars
-               /\ WF_mvars(MStep /\ UNCHANGED <<nticks, hist, npre, prev>>)
-               /\ WF_mvars(SStep /\ UNCHANGED <<nticks, hist, npre, prev>>)
-               /\ WF_mvars(TickStep /\ UNCHANGED <<hist, npre, prev>>)
+         \/ RestartStep
+BSpec == MInit /\ [][BNext /\ UNCHANGED <<hist, npre, prev, cfg0>>]_mvars
+               /\ WF_mvars(MStep /\ UNCHANGED <<nticks, hist, npre, prev, cfg0>>)
+               /\ WF_mvars(SStep /\ UNCHANGED <<nticks, hist, npre, prev, cfg0>>)
+               /\ WF_mvars(TickStep /\ UNCHANGED <<hist, npre, prev, cfg0>>)
+               /\ WF_mvars(RestartStep /\ UNCHANGED <<hist, npre, prev, cfg0>>)
 BView == <<cfg, pcM, mph, bi, mframe, pcS, sframe, sdead, message, current, update, stop, lock, clock, term,
            outcome, nticks>>
 \* a state without successor is a finished run
@@ -68,23 +82,25 @@ NoDeadlock == (~ENABLED BNext) => (pcM = "done" /\ pcS = "done")
 \* ---- schedules with a bounded number of pre-emptions
 Pre(th) == IF prev # th /\ ((prev = "M" /\ EnM) \/ (prev = "S" /\ EnS)) THEN 1 ELSE 0
 H(th, Step) == /\ npre + Pre(th) <= MaxPre
-               /\ Step
+               /\ Step /\ UNCHANGED cfg0
                /\ npre' = npre + Pre(th) /\ prev' = th
                /\ hist' = Append(hist, [th |-> last'.th, op |-> last'.op, ops |-> last'.ops, at |-> last'.at,
                                         dt |-> clock' - clock])
 HNext == \/ H("M", MStep) /\ UNCHANGED nticks
          \/ H("S", SStep) /\ UNCHANGED nticks
          \/ H("T", TickStep)
+         \/ H("", RestartStep)
 HSpec == MInit /\ [][HNext]_mvars
 
-Finished == pcM = "done" /\ pcS = "done"
-Emit == Finished => PrintT(ToJson([cfg |-> cfg, steps |-> hist, outcome |-> outcome]))
+Finished == pcM = "done" /\ pcS = "done" /\ (cfg.next = <<>> \/ outcome # "normal")
+Emit == Finished => PrintT(ToJson([cfg |-> cfg0, steps |-> hist, outcome |-> outcome]))
 \* random long schedules (-simulate): no bound on pre-emptions
 SimNext == \/ (MStep /\ UNCHANGED nticks)
            \/ (SStep /\ UNCHANGED nticks)
            \/ TickStep
+           \/ RestartStep
 SNext == /\ SimNext
          /\ hist' = Append(hist, [th |-> last'.th, op |-> last'.op, ops |-> last'.ops, at |-> last'.at, dt |-> clock' - clock])
-         /\ UNCHANGED <<npre, prev>>
+         /\ UNCHANGED <<npre, prev, cfg0>>
 SSpec == MInit /\ [][SNext]_mvars
 =============================================================================
